@@ -296,6 +296,21 @@ pub fn run_one(prop: &dyn Prop, stream: &[u32], tier: Tier, rendering: bool, fin
         Outcome::Fail(_) | Outcome::Known(..) if crate::rat::overflowed() => Outcome::Discard("rat-overflow"),
         o => o,
     };
+    if let Outcome::Known(k, _) = &out {
+        if let Ok(dir) = std::env::var("VERIF_DUMP_KNOWN") {
+            static DUMPED: AtomicU64 = AtomicU64::new(0);
+            let n = DUMPED.fetch_add(1, Ordering::Relaxed);
+            if n < 40 {
+                let mut sm = stream.to_vec();
+                sm.truncate(case.src.consumed().min(sm.len()));
+                let _ = std::fs::create_dir_all(&dir);
+                let _ = std::fs::write(
+                    format!("{}/{}-{}-{}.json", dir, prop.id(), k, n),
+                    serde_json::to_string(&json!({"property": prop.id(), "engine": "known-finding-dump", "stream": sm, "message": k})).unwrap(),
+                );
+            }
+        }
+    }
     let info = CaseInfo {
         nontrivial: case.nontrivial,
         classes: std::mem::take(&mut case.classes),
